@@ -44,6 +44,9 @@ def _set_strategy(runs=True):
             i = 0
             while i < n:
                 dur = draw(st.one_of(st.integers(0, 5 * gen.SEC), st.sampled_from([0, 1, 1000])))
+                if draw(st.integers(0, 11)) == 0:
+                    # an inverted timespan (end before start) is a timespan too: identical ones merge
+                    dur = -draw(st.integers(1, min(t, 2 * gen.SEC) or 1)) if t > 0 else dur
                 run = 1
                 if runs and draw(st.integers(0, 2)) == 0:
                     run = draw(st.integers(2, 4))
@@ -116,6 +119,8 @@ def retime_strategy(tier):
             off = -int(base * sk) + draw(st.sampled_from([-2, -1, 0, 0, 1, 2, 1000, -1000]))
             if not k and draw(st.booleans()):
                 off = -round(base * skew) + draw(st.sampled_from([-1, 0, 0, 0, 1]))
+            elif not k and draw(st.booleans()):
+                off = -(base * skew)       # a float offset: the new start is exactly 0.0
         return {"set": s, "k": k, "skew": skew, "offset": off}
     return build()
 
@@ -126,6 +131,7 @@ def check_retime(case, rec):
     skew_f = case["k"] / 64 if exact else case["skew"]
     skew_q = Fraction(case["k"], 64) if exact else Fraction(case["skew"])
     off = case["offset"]
+    off_q = Fraction(off)
     cs = model.to_pycaption(m)
     with must("CaptionSet.adjust_caption_timing"):
         if exact and case["k"] == 64 and off == 0:
@@ -137,8 +143,8 @@ def check_retime(case, rec):
     for lang in m["langs"]:
         exp = []
         for c in lang["cues"]:
-            ns = c["start"] * skew_q + off
-            ne = c["end"] * skew_q + off
+            ns = c["start"] * skew_q + off_q
+            ne = c["end"] * skew_q + off_q
             if not exact and abs(ns) < Fraction(1, 1000):
                 # the sign of the new start is judged only where the exact value and the
                 # double-precision evaluation of t*skew+offset agree on it
